@@ -276,9 +276,9 @@ func (d *dispenser) DispenseDestination() (connectorPlugin.DestinationPlugin, er
 type PluginService struct{ w *World }
 
 const (
-	PluginSrc = "fake-src"
-	PluginDst = "fake-dst"
-	PluginDlq = "fake-dlq"
+	PluginSrc  = "fake-src"
+	PluginDst  = "fake-dst"
+	PluginDlq  = "fake-dlq"
 	PluginDst2 = "fake-dst2"
 )
 
